@@ -98,10 +98,16 @@ void RetireList<T, D>::retire(T* data) {
       return;
     }
   }
-  do {
+  while (true) {
     node->next = get_node(head);
-  } while (!_head.compare_exchange_weak(head, new_head,
-                                        ::std::memory_order_acq_rel));
+    if (_head.compare_exchange_weak(head, new_head,
+                                    ::std::memory_order_acq_rel)) {
+      break;
+    }
+    // 竞争失败后，链表中可能已经挂入了更晚退休的节点
+    // 需要重新获取时间戳，避免整条链表被标记成更早的退休时间
+    new_head = make_head(node, get_current_timestamp());
+  }
 }
 
 template <typename T, typename D>
